@@ -10,6 +10,11 @@ NOT_APPLICABLE = {
 for k in ['C01','C02','C03','C04','C05','C06','C07','C10','C11','C12','C13','C14','C15','C16','C17','C18','C19','C20']:
     NOT_APPLICABLE.setdefault(k, UNDER)
 CHECKS = {
+ 'C18': {
+  'text': 'Verus proves on the real prepare_changing_distance / clear_tree_nodes with two uninterpreted metrics: same metric => the database view is unchanged; different metric => metadata and every tree key of the index are removed, the item key set is unchanged, every leaf becomes Leaf(ND::new_header(v), ND::enc(v)) with v = D::dec(old) truncated to the declared dimension (header computed from the truncated vector), marks, the version record and all other indexes are untouched; hence stale() holds afterwards (need_build / Reader::open contracts of C06), and the metric names are pairwise distinct (Kani), so opening under the old metric fails after a rebuild.',
+  'note': 'All ordered metric pairs are covered because both metrics are uninterpreted; the rebuild itself is the build chain (C01).',
+  'technique': 'Verus postconditions + loop invariants on extracted real functions',
+ },
  'C04': {
   'text': 'Kani proves on the real default methods, for ALL f32 values: Distance::side stores an item Right iff its margin is positive and Left iff negative (zero margin = random, exempt); Distance::pq_distance gives the child on the margin side a priority >= the other child, equal only when the inherited bound d <= -|margin|, and from a root (+inf) the priorities are exactly (-margin, margin). A static guard checks that no metric overrides these two methods.',
   'note': 'PARTIAL: the writer-side placement clauses (insert_items_in_file / make_tree_in_file put an item under left iff side() returned Left; rewritten splits keep left/right) and the reader push order are claimed only where the build-chain / reader units are listed in the evidence; symmetry margin(n,q)=margin(q,n) is an IEEE assumption.',
